@@ -99,3 +99,25 @@ def _number_writers():
                                  r"FormulaValue::Number\(|SpillValue::Number\(|NumberCell\s*\{|new_number\(|set_cell_with_number\(",
                                  writers | delegates | readers)
     return ok, detail, n
+
+
+@scan("date-offset-sites")
+def _date_offset_sites():
+    """C21: every conversion from a chrono day count to a serial number in base/src is literally
+    `<x>.num_days_from_ce() - EXCEL_DATE_BASE` (the formula of convert_to_serial_number, under contract in unit dates),
+    and the offset literal appears only in constants.rs."""
+    bad = []
+    total = 0
+    for rel in rs_files("base/src"):
+        src, m = code_lines(rel)
+        for mm in re.finditer(r"num_days_from_ce\s*\(\s*\)", m):
+            total += 1
+            tail = m[mm.end():mm.end() + 40]
+            if not re.match(r"\s*-\s*EXCEL_DATE_BASE\b", tail):
+                bad.append(f"{rel}:{src.count(chr(10), 0, mm.start()) + 1}")
+        if not rel.endswith("constants.rs"):
+            for mm in re.finditer(r"\b693_?594\b|\b693_?595\b|\b693_?596\b", m):
+                bad.append(f"{rel}:{src.count(chr(10), 0, mm.start()) + 1} (offset literal)")
+    if bad:
+        return False, "date-offset-sites: day-count conversion not in the contracted form at " + "; ".join(bad[:5]), total
+    return True, f"{total} conversion sites, all `num_days_from_ce() - EXCEL_DATE_BASE`", total
